@@ -37,6 +37,9 @@ type Variant struct {
 	Mode       string // "C05" or "C06": which oracles are evaluated
 	// InitialHeight of the chain (0 = 1)
 	InitialHeight int64
+	// OtherPools creates that many further long-lived pools (farm-2 ...) by another creator after the pool under
+	// test; with 9 of them the tenth pool's id "farm-10" has the id of the pool under test as a proper prefix
+	OtherPools int
 }
 
 type model struct {
@@ -208,6 +211,9 @@ func New(v Variant) func() (*mc.Env, mc.Driver) {
 		for _, f := range v.Farmers {
 			bal[f] = sdk.NewCoins(mc.C("stake", 1000))
 		}
+		if v.OtherPools > 0 {
+			bal["K2"] = sdk.NewCoins(mc.CI("stake", big130), mc.CI("btc", big130), mc.CI("eth", big130))
+		}
 		e := mc.NewEnv(mc.EnvOptions{Balances: bal, InitialHeight: v.InitialHeight})
 		return e, &Driver{V: v}
 	}
@@ -237,6 +243,17 @@ func (d *Driver) Init(e *mc.Env) *mc.State {
 	must(s.Deliver(e, "fx-createpool", &farmtypes.MsgCreatePool{
 		Description: "p", LptDenom: lpt, StartHeight: start, RewardPerBlock: d.V.RPB, TotalReward: d.V.Total,
 		Editable: true, Creator: mc.Addr(creator).String()}), "create-pool")
+	for i := 0; i < d.V.OtherPools; i++ {
+		// same reward denominations at another rate, budget for 1000 blocks, nobody staked
+		var rpb, tot sdk.Coins
+		for _, c := range d.V.RPB {
+			rpb = rpb.Add(sdk.NewCoin(c.Denom, c.Amount.AddRaw(int64(i)+2)))
+			tot = tot.Add(sdk.NewCoin(c.Denom, c.Amount.AddRaw(int64(i)+2).MulRaw(1000)))
+		}
+		must(s.Deliver(e, fmt.Sprintf("fx-createpool-%d", i+2), &farmtypes.MsgCreatePool{
+			Description: "other", LptDenom: lpt, StartHeight: s.Ctx.BlockHeight(), RewardPerBlock: rpb, TotalReward: tot,
+			Editable: true, Creator: mc.Addr("K2").String()}), "create-other-pool")
+	}
 	m := newModel()
 	for _, c := range d.V.Total {
 		m.funded[c.Denom] = c.Amount.BigInt()
@@ -663,12 +680,22 @@ func (d *Driver) check(e *mc.Env, s *mc.State) []mc.Finding {
 		if !sum.Equal(pool.TotalLptLocked.Amount) {
 			fs = append(fs, mc.F("C05/stakes-sum-differs-from-pool-total", "sum of farmer stakes %s, pool total %s", sum, pool.TotalLptLocked.Amount))
 		}
-		// escrow = staked tokens + undistributed reward budgets
-		if got := e.Bal(s.Ctx, farmAcc, lpt); !got.Equal(pool.TotalLptLocked.Amount) {
+		// escrow = staked tokens + undistributed reward budgets (of all pools)
+		others := sdk.NewCoins()
+		if d.V.OtherPools > 0 {
+			if r, err := e.Farm.FarmPools(s.Ctx, &farmtypes.QueryFarmPoolsRequest{}); err == nil {
+				for _, p := range r.Pools {
+					if p.Id != poolID {
+						others = others.Add(p.RemainingReward...).Add(p.TotalLptLocked)
+					}
+				}
+			}
+		}
+		if got := e.Bal(s.Ctx, farmAcc, lpt).Sub(others.AmountOf(lpt)); !got.Equal(pool.TotalLptLocked.Amount) {
 			fs = append(fs, mc.F("C05/escrow-differs/staked-token", "farm account holds %s %s, pool total %s", got, lpt, pool.TotalLptLocked.Amount))
 		}
 		for _, dn := range d.rewardDenoms() {
-			if got := e.Bal(s.Ctx, farmAcc, dn); !got.Equal(pool.RemainingReward.AmountOf(dn)) {
+			if got := e.Bal(s.Ctx, farmAcc, dn).Sub(others.AmountOf(dn)); !got.Equal(pool.RemainingReward.AmountOf(dn)) {
 				fs = append(fs, mc.F("C05/escrow-differs/reward-budget", "farm account holds %s %s, remaining budget %s", got, dn, pool.RemainingReward.AmountOf(dn)))
 			}
 		}
